@@ -387,12 +387,21 @@ func ruleC17_4(c *Ctx) {
 		p.allInstrsDeep(mg, func(in ssa.Instruction) {
 			if st, ok := in.(*ssa.Store); ok {
 				if fa, ok := st.Addr.(*ssa.FieldAddr); ok && fieldVar(fa.X.Type(), fa.Field) == msgRsp {
-					if li := lift(in, mg); li != nil {
-						asm = append(asm, li)
-					}
+					asm = append(asm, in)
 				}
 			}
 		})
+		// a store and the comparison seen in one function: the one that contains both (directly or through a helper call)
+		together := func(a, b ssa.Instruction) (ssa.Instruction, ssa.Instruction) {
+			if la := lift(a, outermost(b.Parent())); la != nil {
+				return la, b
+			}
+			if lb := lift(b, outermost(a.Parent())); lb != nil {
+				return a, lb
+			}
+			la, lb := lift(a, mg), lift(b, mg)
+			return la, lb
+		}
 		lenOfMerged := func(v ssa.Value) bool {
 			call, ok := strip(v).(*ssa.Call)
 			if !ok {
@@ -404,7 +413,7 @@ func ruleC17_4(c *Ctx) {
 			_, is := fieldLoad(call.Call.Args[0], msgRsp)
 			return is
 		}
-		allInstrs(mg, func(in ssa.Instruction) {
+		p.allInstrsDeep(mg, func(in ssa.Instruction) {
 			var x ssa.Value
 			if bo, ok := in.(*ssa.BinOp); ok && bo.Op == token.GTR {
 				if _, is := fieldLoad(bo.Y, maxF); is {
@@ -434,7 +443,8 @@ func ruleC17_4(c *Ctx) {
 				if onOwnEdge {
 					continue
 				}
-				if !canReach(a, in) || canReach(in, a) {
+				la, lin := together(a, in)
+				if la == nil || lin == nil || !canReach(la, lin) || canReach(lin, la) {
 					after = false
 				}
 			}
@@ -660,19 +670,27 @@ func ruleC18_2(c *Ctx) {
 	ipMap := p.Global(pkgAuthIP, "IpMap")
 	removes := false
 	var at ssa.Instruction
-	allInstrs(parse, func(in ssa.Instruction) {
+	// (the map operations may live in a helper such as (*ipMap).apply(auth), called on IpMap)
+	p.allInstrsDeep(parse, func(in ssa.Instruction) {
 		ci, ok := in.(ssa.CallInstruction)
 		if !ok {
 			return
 		}
 		n := staticCalleeName(ci.Common())
-		if strings.HasSuffix(n, "hashmap.HashMap).Del") && len(ci.Common().Args) > 0 && strings.Contains(expr(ci.Common().Args[0]), "authip.IpMap") {
-			removes = true
-			at = in
+		if strings.HasSuffix(n, "hashmap.HashMap).Del") && len(ci.Common().Args) > 0 {
+			recv := ci.Common().Args[0]
+			onMap := strings.Contains(expr(recv), "authip.IpMap") || strings.Contains(expr(strip(recv)), "authip.IpMap")
+			if fa, isFA := recv.(*ssa.FieldAddr); isFA && !onMap {
+				onMap = strings.Contains(expr(strip(fa.X)), "authip.IpMap")
+			}
+			if onMap {
+				removes = true
+				at = in
+			}
 		}
 	})
 	// or a fresh map swapped in
-	allInstrs(parse, func(in ssa.Instruction) {
+	p.allInstrsDeep(parse, func(in ssa.Instruction) {
 		if st, ok := in.(*ssa.Store); ok {
 			if fa, ok := st.Addr.(*ssa.FieldAddr); ok && fa.X == ssa.Value(ipMap) && fieldName(fa.X.Type(), fa.Field) == "HashMap" {
 				removes = true
